@@ -22,7 +22,6 @@ import hashlib
 import itertools
 import math
 import random
-import traceback
 from concurrent.futures import ProcessPoolExecutor
 
 import numpy
